@@ -25,7 +25,7 @@ def generate(seed, tier):
         from .. import eworld
 
         return eworld.gen_env_case(rng, PROP, big=big, rewards_focus=True)
-    spec = gen_instance(rng, huge=0.05, max_jobs=6 if big else 4, max_machines=5 if big else 4, max_ops=6 if big else 4)
+    spec = gen_instance(rng, huge=0.05, sparse_ids=0.03, large=0.008, max_jobs=6 if big else 4, max_machines=5 if big else 4, max_ops=6 if big else 4)
     names, style = gen_filter(rng, None, p_none=0.5)
     obs = [{"t": "makespan_reward"}, {"t": "idle_reward"}]
     if rng.random() < 0.5:
